@@ -9,12 +9,14 @@ PENDING_REASON = "not claimed yet: model/proofs/harness for this property are no
 def main():
     props = [json.loads(l)["id"] for l in open(os.path.join(vlib.VERIF, "properties.jsonl"))]
     checks, na = [], []
+    # only properties whose files have been reviewed and committed are claimed (one id per line)
+    allow = set(l.strip() for l in open(os.path.join(vlib.VERIF, "tools", "claimed.txt")) if l.strip() and not l.startswith("#"))
     for pid in props:
         p = os.path.join(vlib.VERIF, "tools", "props", pid.lower() + ".py")
         m = None
         if os.path.exists(p):
             mod = importlib.import_module("props." + pid.lower())
-            m = getattr(mod, "MANIFEST", None)
+            m = getattr(mod, "MANIFEST", None) if pid in allow else None
         if m is None:
             na.append({"property_id": pid, "reason": getattr(mod, "NA_REASON", PENDING_REASON) if os.path.exists(p) else PENDING_REASON})
             continue
